@@ -43,13 +43,13 @@ SB_OP(alloc)
     bool has_plan = false;
     std::vector<ExactBuf*> views; // caller memory for views; freed at the very end
     std::vector<int> fds;
-    memset(&buf, 0, sizeof(buf));
-    memset(&traj, 0, sizeof(traj));
-    memset(&bld, 0, sizeof(bld));
-    memset(&prog, 0, sizeof(prog));
-    memset(&player, 0, sizeof(player));
-    memset(&yaw, 0, sizeof(yaw));
-    memset(&plan, 0, sizeof(plan));
+    memset(&buf, SBH_FILL, sizeof(buf));
+    memset(&traj, SBH_FILL, sizeof(traj));
+    memset(&bld, SBH_FILL, sizeof(bld));
+    memset(&prog, SBH_FILL, sizeof(prog));
+    memset(&player, SBH_FILL, sizeof(player));
+    memset(&yaw, SBH_FILL, sizeof(yaw));
+    memset(&plan, SBH_FILL, sizeof(plan));
 
     auto answer = [&](int rc) {
         add(out, std::to_string(rc) + ":" + std::to_string(ledger_live()) + ":" + std::to_string(g_alloc_count));
@@ -242,7 +242,7 @@ SB_OP(alloc)
             while (f.size() < 7)
                 f.push_back(0);
             sb_rth_plan_entry_t e;
-            memset(&e, 0, sizeof(e));
+            memset(&e, SBH_FILL, sizeof(e));
             e.action = (sb_rth_action_t)(int)f[0];
             e.time_sec = f[1];
             e.duration_sec = f[2];
